@@ -166,7 +166,68 @@ fn table(p: Profile) -> Vec<(K, u32)> {
     }
 }
 
+/// What is currently live in the broker, taken from the latest state dump of the hook. The
+/// generator uses it to produce mostly meaningful traffic (own objects, live services, pending
+/// calls, claimable channel ends, started listeners); stale, foreign and never-issued cookies are
+/// still mixed in from the pools.
+#[derive(Default)]
+pub struct View {
+    /// (cookie, owner connection id)
+    pub objs: Vec<(ObjectCookie, usize)>,
+    /// (cookie, owner connection id)
+    pub svcs: Vec<(ServiceCookie, usize)>,
+    /// (cookie, sender owner (usize::MAX unclaimed, usize::MAX-1 closed), receiver owner likewise)
+    pub chans: Vec<(ChannelCookie, usize, usize)>,
+    /// (cookie, owner, started)
+    pub lsts: Vec<(BusListenerCookie, usize, bool)>,
+    /// (broker serial, callee connection id)
+    pub calls: Vec<(u32, usize)>,
+    /// (caller connection id, caller serial)
+    pub my_calls: Vec<(usize, u32)>,
+    /// (query serial, queried connection id)
+    pub queries: Vec<(u32, usize)>,
+}
+
+pub const UNCLAIMED: usize = usize::MAX;
+pub const CLOSED: usize = usize::MAX - 1;
+
+impl View {
+    pub fn from_dump(d: &aldrin_broker::verif::Dump) -> Self {
+        use aldrin_broker::verif::DumpChannelEnd as E;
+        let end = |e: &E| match e {
+            E::Unclaimed => UNCLAIMED,
+            E::Closed => CLOSED,
+            E::Claimed { owner, .. } => *owner,
+        };
+        let owner_of_obj = |u: &ObjectUuid| d.objs.iter().find(|o| o.uuid == *u).map(|o| o.conn);
+        Self {
+            objs: d.objs.iter().map(|o| (o.cookie, o.conn)).collect(),
+            svcs: d
+                .svcs
+                .iter()
+                .filter_map(|s| owner_of_obj(&s.object_uuid).map(|c| (s.cookie, c)))
+                .collect(),
+            chans: d.channels.iter().map(|c| (c.cookie, end(&c.sender), end(&c.receiver))).collect(),
+            lsts: d.bus_listeners.iter().map(|l| (l.cookie, l.conn, l.scope.is_some())).collect(),
+            calls: d
+                .calls
+                .iter()
+                .filter_map(|c| owner_of_obj(&c.callee_obj).map(|callee| (c.serial, callee)))
+                .collect(),
+            my_calls: d.calls.iter().filter(|c| !c.aborted).map(|c| (c.caller, c.caller_serial)).collect(),
+            queries: d
+                .introspection
+                .iter()
+                .filter_map(|e| e.queried.map(|(c, s)| (s, c)))
+                .collect(),
+        }
+    }
+}
+
 pub struct Pools {
+    pub view: View,
+    /// broker connection id of each raw connection
+    pub ids: Vec<usize>,
     pub obj_uuids: Vec<ObjectUuid>,
     pub svc_uuids: Vec<ServiceUuid>,
     pub type_ids: Vec<TypeId>,
@@ -185,6 +246,14 @@ pub struct Pools {
     pub garbage: Vec<SerializedValue>,
     pub wild: bool,
     seen: HashSet<Uuid>,
+}
+
+#[derive(Debug, Clone, Copy)]
+enum ChanWant {
+    Claimable,
+    Own,
+    OwnSenderEstablished,
+    OwnReceiver,
 }
 
 pub const CAPS: [u32; 10] = [0, 1, 2, 3, 4, 5, 6, 1 << 31, u32::MAX - 1, u32::MAX];
@@ -224,7 +293,21 @@ impl Pools {
             garbage,
             wild,
             seen: HashSet::new(),
+            view: View::default(),
+            ids: vec![],
         }
+    }
+
+    /// probability (percent) of picking a cookie from the live view rather than from the pools
+    const LIVE_PCT: u64 = 72;
+
+    fn me(&self, i: usize) -> usize {
+        self.ids.get(i).copied().unwrap_or(usize::MAX - 7)
+    }
+
+    pub fn add_conn_id(&mut self, id: usize) {
+        self.ids.push(id);
+        self.add_conn();
     }
 
     pub fn add_conn(&mut self) {
@@ -289,6 +372,93 @@ impl Pools {
             }
         } else {
             *rng.pick(&self.never)
+        }
+    }
+
+    /// a live object, preferably (own = true) one of connection `i`
+    fn obj_live(&self, rng: &mut Rng, i: usize, own: bool) -> ObjectCookie {
+        let me = self.me(i);
+        let mine: Vec<ObjectCookie> = self.view.objs.iter().filter(|o| (o.1 == me) == own).map(|o| o.0).collect();
+        if !mine.is_empty() && rng.below(100) < Self::LIVE_PCT {
+            *rng.pick(&mine)
+        } else {
+            self.obj(rng)
+        }
+    }
+
+    fn svc_live(&self, rng: &mut Rng, i: usize, own: Option<bool>) -> ServiceCookie {
+        let me = self.me(i);
+        let cands: Vec<ServiceCookie> = self
+            .view
+            .svcs
+            .iter()
+            .filter(|s| own.map(|o| (s.1 == me) == o).unwrap_or(true))
+            .map(|s| s.0)
+            .collect();
+        if !cands.is_empty() && rng.below(100) < Self::LIVE_PCT {
+            *rng.pick(&cands)
+        } else {
+            self.svc(rng)
+        }
+    }
+
+    fn lst_live(&self, rng: &mut Rng, i: usize, started: Option<bool>) -> BusListenerCookie {
+        let me = self.me(i);
+        let cands: Vec<BusListenerCookie> = self
+            .view
+            .lsts
+            .iter()
+            .filter(|l| l.1 == me && started.map(|s| l.2 == s).unwrap_or(true))
+            .map(|l| l.0)
+            .collect();
+        if !cands.is_empty() && rng.below(100) < Self::LIVE_PCT {
+            *rng.pick(&cands)
+        } else {
+            self.lst(rng)
+        }
+    }
+
+    /// a channel end: `claimable` = an unclaimed end, otherwise an end owned by `i`
+    fn chan_live(&self, rng: &mut Rng, i: usize, want: ChanWant) -> (ChannelCookie, ChannelEnd) {
+        let me = self.me(i);
+        let mut cands: Vec<(ChannelCookie, ChannelEnd)> = Vec::new();
+        for &(k, s, r) in &self.view.chans {
+            match want {
+                ChanWant::Claimable => {
+                    if s == UNCLAIMED {
+                        cands.push((k, ChannelEnd::Sender));
+                    }
+                    if r == UNCLAIMED {
+                        cands.push((k, ChannelEnd::Receiver));
+                    }
+                }
+                ChanWant::Own => {
+                    if s == me {
+                        cands.push((k, ChannelEnd::Sender));
+                    }
+                    if r == me {
+                        cands.push((k, ChannelEnd::Receiver));
+                    }
+                }
+                ChanWant::OwnSenderEstablished => {
+                    if s == me && r < CLOSED {
+                        cands.push((k, ChannelEnd::Sender));
+                    }
+                }
+                ChanWant::OwnReceiver => {
+                    if r == me {
+                        cands.push((k, ChannelEnd::Receiver));
+                    }
+                }
+            }
+        }
+        if !cands.is_empty() && rng.below(100) < Self::LIVE_PCT + 10 {
+            *rng.pick(&cands)
+        } else {
+            (
+                self.chan(rng),
+                if rng.chance(1, 2) { ChannelEnd::Sender } else { ChannelEnd::Receiver },
+            )
         }
     }
 
@@ -358,26 +528,61 @@ impl Pools {
     pub fn gen(&mut self, rng: &mut Rng, i: usize, profile: Profile) -> Message {
         let tab = table(profile);
         let total: u32 = tab.iter().map(|x| x.1).sum();
-        let mut r = rng.below(total as u64) as u32;
         let mut kind = tab[0].0;
-        for (k, w) in tab {
-            if r < w {
-                kind = k;
+        for _try in 0..6 {
+            let mut r = rng.below(total as u64) as u32;
+            for &(k, w) in &tab {
+                if r < w {
+                    kind = k;
+                    break;
+                }
+                r -= w;
+            }
+            // mostly skip requests that cannot be meaningful in the current state
+            if self.feasible(i, kind) || rng.chance(1, 8) {
                 break;
             }
-            r -= w;
         }
         self.gen_kind(rng, i, kind)
+    }
+
+    fn feasible(&self, i: usize, kind: K) -> bool {
+        let me = self.me(i);
+        let v = &self.view;
+        match kind {
+            K::CreateService | K::CreateService2 | K::DestroyObject => v.objs.iter().any(|o| o.1 == me),
+            K::DestroyService | K::EmitEvent => v.svcs.iter().any(|x| x.1 == me),
+            K::CallFunction
+            | K::CallFunction2
+            | K::SubscribeEvent
+            | K::UnsubscribeEvent
+            | K::SubscribeService
+            | K::UnsubscribeService
+            | K::SubscribeAllEvents
+            | K::UnsubscribeAllEvents
+            | K::QueryServiceVersion
+            | K::QueryServiceInfo => !v.svcs.is_empty(),
+            K::CallFunctionReply => v.calls.iter().any(|c| c.1 == me),
+            K::AbortFunctionCall => v.my_calls.iter().any(|c| c.0 == me),
+            K::CloseChannelEnd | K::ClaimChannelEnd => !v.chans.is_empty(),
+            K::SendItem => v.chans.iter().any(|c| c.1 == me),
+            K::AddChannelCapacity => v.chans.iter().any(|c| c.2 == me),
+            K::DestroyBusListener | K::AddFilter | K::RemoveFilter | K::ClearFilters => v.lsts.iter().any(|l| l.1 == me),
+            K::StartBusListener => v.lsts.iter().any(|l| l.1 == me && !l.2),
+            K::StopBusListener => v.lsts.iter().any(|l| l.1 == me && l.2),
+            K::QueryIntrospectionReply => v.queries.iter().any(|q| q.1 == me),
+            _ => true,
+        }
     }
 
     pub fn gen_kind(&mut self, rng: &mut Rng, i: usize, kind: K) -> Message {
         let serial = self.serial(rng, i);
         match kind {
             K::CreateObject => CreateObject { serial, uuid: *rng.pick(&self.obj_uuids) }.into(),
-            K::DestroyObject => DestroyObject { serial, cookie: self.obj(rng) }.into(),
+            K::DestroyObject => DestroyObject { serial, cookie: self.obj_live(rng, i, true) }.into(),
             K::CreateService => CreateService {
                 serial,
-                object_cookie: self.obj(rng),
+                object_cookie: self.obj_live(rng, i, true),
                 uuid: *rng.pick(&self.svc_uuids),
                 version: rng.below(3) as u32,
             }
@@ -399,23 +604,23 @@ impl Pools {
                 };
                 CreateService2 {
                     serial,
-                    object_cookie: self.obj(rng),
+                    object_cookie: self.obj_live(rng, i, true),
                     uuid: *rng.pick(&self.svc_uuids),
                     value,
                 }
                 .into()
             }
-            K::DestroyService => DestroyService { serial, cookie: self.svc(rng) }.into(),
+            K::DestroyService => DestroyService { serial, cookie: self.svc_live(rng, i, Some(true)) }.into(),
             K::CallFunction => CallFunction {
                 serial,
-                service_cookie: self.svc(rng),
+                service_cookie: self.svc_live(rng, i, None),
                 function: rng.below(3) as u32,
                 value: self.value(rng),
             }
             .into(),
             K::CallFunction2 => CallFunction2 {
                 serial,
-                service_cookie: self.svc(rng),
+                service_cookie: self.svc_live(rng, i, None),
                 function: rng.below(3) as u32,
                 version: if rng.chance(1, 2) { Some(rng.below(3) as u32) } else { None },
                 value: self.value(rng),
@@ -436,31 +641,31 @@ impl Pools {
             K::AbortFunctionCall => AbortFunctionCall { serial: self.recent_serial(rng, i) }.into(),
             K::SubscribeEvent => SubscribeEvent {
                 serial: if self.wild && rng.chance(1, 10) { None } else { Some(serial) },
-                service_cookie: self.svc(rng),
+                service_cookie: self.svc_live(rng, i, None),
                 event: rng.below(3) as u32,
             }
             .into(),
-            K::UnsubscribeEvent => UnsubscribeEvent { service_cookie: self.svc(rng), event: rng.below(3) as u32 }.into(),
+            K::UnsubscribeEvent => UnsubscribeEvent { service_cookie: self.svc_live(rng, i, None), event: rng.below(3) as u32 }.into(),
             K::EmitEvent => EmitEvent {
-                service_cookie: self.svc(rng),
+                service_cookie: self.svc_live(rng, i, Some(true)),
                 event: rng.below(3) as u32,
                 value: self.value(rng),
             }
             .into(),
-            K::SubscribeService => SubscribeService { serial, service_cookie: self.svc(rng) }.into(),
-            K::UnsubscribeService => UnsubscribeService { service_cookie: self.svc(rng) }.into(),
+            K::SubscribeService => SubscribeService { serial, service_cookie: self.svc_live(rng, i, None) }.into(),
+            K::UnsubscribeService => UnsubscribeService { service_cookie: self.svc_live(rng, i, None) }.into(),
             K::SubscribeAllEvents => SubscribeAllEvents {
                 serial: if self.wild && rng.chance(1, 10) { None } else { Some(serial) },
-                service_cookie: self.svc(rng),
+                service_cookie: self.svc_live(rng, i, None),
             }
             .into(),
             K::UnsubscribeAllEvents => UnsubscribeAllEvents {
                 serial: if rng.chance(1, 4) { None } else { Some(serial) },
-                service_cookie: self.svc(rng),
+                service_cookie: self.svc_live(rng, i, None),
             }
             .into(),
-            K::QueryServiceVersion => QueryServiceVersion { serial, cookie: self.svc(rng) }.into(),
-            K::QueryServiceInfo => QueryServiceInfo { serial, cookie: self.svc(rng) }.into(),
+            K::QueryServiceVersion => QueryServiceVersion { serial, cookie: self.svc_live(rng, i, None) }.into(),
+            K::QueryServiceInfo => QueryServiceInfo { serial, cookie: self.svc_live(rng, i, None) }.into(),
             K::CreateChannel => CreateChannel {
                 serial,
                 end: if rng.chance(1, 2) {
@@ -470,37 +675,44 @@ impl Pools {
                 },
             }
             .into(),
-            K::CloseChannelEnd => CloseChannelEnd {
-                serial,
-                cookie: self.chan(rng),
-                end: if rng.chance(1, 2) { ChannelEnd::Sender } else { ChannelEnd::Receiver },
+            K::CloseChannelEnd => {
+                let want = if rng.chance(3, 4) { ChanWant::Own } else { ChanWant::Claimable };
+                let (cookie, end) = self.chan_live(rng, i, want);
+                CloseChannelEnd { serial, cookie, end }.into()
             }
-            .into(),
-            K::ClaimChannelEnd => ClaimChannelEnd {
-                serial,
-                cookie: self.chan(rng),
-                end: if rng.chance(1, 2) {
-                    ChannelEndWithCapacity::Sender
-                } else {
-                    ChannelEndWithCapacity::Receiver(self.cap(rng))
-                },
+            K::ClaimChannelEnd => {
+                let (cookie, end) = self.chan_live(rng, i, ChanWant::Claimable);
+                ClaimChannelEnd {
+                    serial,
+                    cookie,
+                    end: match end {
+                        ChannelEnd::Sender => ChannelEndWithCapacity::Sender,
+                        ChannelEnd::Receiver => ChannelEndWithCapacity::Receiver(self.cap(rng)),
+                    },
+                }
+                .into()
             }
-            .into(),
-            K::SendItem => SendItem { cookie: self.chan(rng), value: self.value(rng) }.into(),
-            K::AddChannelCapacity => AddChannelCapacity { cookie: self.chan(rng), capacity: self.cap(rng) }.into(),
+            K::SendItem => {
+                let (cookie, _) = self.chan_live(rng, i, ChanWant::OwnSenderEstablished);
+                SendItem { cookie, value: self.value(rng) }.into()
+            }
+            K::AddChannelCapacity => {
+                let (cookie, _) = self.chan_live(rng, i, ChanWant::OwnReceiver);
+                AddChannelCapacity { cookie, capacity: self.cap(rng) }.into()
+            }
             K::Sync => Sync { serial }.into(),
             K::CreateBusListener => CreateBusListener { serial }.into(),
-            K::DestroyBusListener => DestroyBusListener { serial, cookie: self.lst(rng) }.into(),
-            K::AddFilter => AddBusListenerFilter { cookie: self.lst(rng), filter: self.filter(rng) }.into(),
-            K::RemoveFilter => RemoveBusListenerFilter { cookie: self.lst(rng), filter: self.filter(rng) }.into(),
-            K::ClearFilters => ClearBusListenerFilters { cookie: self.lst(rng) }.into(),
+            K::DestroyBusListener => DestroyBusListener { serial, cookie: self.lst_live(rng, i, None) }.into(),
+            K::AddFilter => AddBusListenerFilter { cookie: self.lst_live(rng, i, None), filter: self.filter(rng) }.into(),
+            K::RemoveFilter => RemoveBusListenerFilter { cookie: self.lst_live(rng, i, None), filter: self.filter(rng) }.into(),
+            K::ClearFilters => ClearBusListenerFilters { cookie: self.lst_live(rng, i, None) }.into(),
             K::StartBusListener => StartBusListener {
                 serial,
-                cookie: self.lst(rng),
+                cookie: self.lst_live(rng, i, Some(false)),
                 scope: *rng.pick(&[BusListenerScope::Current, BusListenerScope::New, BusListenerScope::All]),
             }
             .into(),
-            K::StopBusListener => StopBusListener { serial, cookie: self.lst(rng) }.into(),
+            K::StopBusListener => StopBusListener { serial, cookie: self.lst_live(rng, i, Some(true)) }.into(),
             K::RegisterIntrospection => {
                 let value = if self.wild && rng.chance(1, 5) {
                     self.value(rng)
@@ -517,7 +729,11 @@ impl Pools {
             }
             K::QueryIntrospection => QueryIntrospection { serial, type_id: *rng.pick(&self.type_ids) }.into(),
             K::QueryIntrospectionReply => {
-                let serial = if !self.qi[i].is_empty() && rng.chance(4, 5) {
+                let me = self.me(i);
+                let asked: Vec<u32> = self.view.queries.iter().filter(|q| q.1 == me).map(|q| q.0).collect();
+                let serial = if !asked.is_empty() && rng.chance(4, 5) {
+                    *rng.pick(&asked)
+                } else if !self.qi[i].is_empty() && rng.chance(4, 5) {
                     *rng.pick(&self.qi[i])
                 } else {
                     rng.below(4) as u32
@@ -537,6 +753,11 @@ impl Pools {
     }
 
     fn fwd_serial(&mut self, rng: &mut Rng, i: usize) -> u32 {
+        let me = self.me(i);
+        let pending: Vec<u32> = self.view.calls.iter().filter(|c| c.1 == me).map(|c| c.0).collect();
+        if !pending.is_empty() && rng.below(100) < Self::LIVE_PCT {
+            return *rng.pick(&pending);
+        }
         let own = &self.fwd[i];
         let r = rng.below(100);
         if !own.is_empty() && r < 70 {
@@ -557,6 +778,11 @@ impl Pools {
     }
 
     fn recent_serial(&mut self, rng: &mut Rng, i: usize) -> u32 {
+        let me = self.me(i);
+        let mine: Vec<u32> = self.view.my_calls.iter().filter(|c| c.0 == me).map(|c| c.1).collect();
+        if !mine.is_empty() && rng.below(100) < Self::LIVE_PCT {
+            return *rng.pick(&mine);
+        }
         let n = self.next_serial[i];
         if n > 0 && rng.chance(4, 5) {
             n - 1 - rng.below(n.min(4) as u64) as u32
